@@ -53,6 +53,7 @@ CATALOGUE = [
     "set_frequencies_wrong_shape", "set_frequencies_negative", "set_errors2_wrong_shape", "set_errors2_negative",
     # collection / adaptivity faults
     "collection_other_binning", "collection_add_other_binning", "set_adaptive_on_static",
+    "collection_create_bad_weights", "collection_create_bad_values",
 ]
 FAULT_KINDS = ["invalid:" + c for c in CATALOGUE] + ["fault_after_growth", "derived_object_filled"]
 RULE = ("one run = one live node of a seeded family (1-D fixed int/float, 1-D adaptive, 1-D gapped, 2-D fixed, 2-D "
@@ -507,9 +508,29 @@ def apply_invalid(h, kind, arg):
         if all(b.adaptive_allowed for b in h.binnings):
             return NotImplemented
         h.set_adaptive(True)
+    elif kind in ("collection_create_bad_weights", "collection_create_bad_values"):
+        if nd != 1:
+            return NotImplemented
+        coll = HistogramCollection(h)
+        names_before = [m.name for m in coll.histograms]
+        try:
+            if kind.endswith("weights"):
+                coll.create("late", [lo_inside(h)] * 3, weights=[1.0, 2.0])
+            else:
+                coll.create("late", ["a", "b"])
+        except Exception as exc:
+            names_after = [m.name for m in coll.histograms]
+            if names_after != names_before:
+                raise LeftBehind(f"HistogramCollection.create raised {exc!r} but the collection now holds "
+                                 f"{names_after} (was {names_before})") from exc
+            raise
     else:
         return NotImplemented
     return None
+
+
+class LeftBehind(Exception):
+    """A refused call that nevertheless changed what a collection records."""
 
 
 def lo_inside(h):
@@ -617,6 +638,9 @@ def execute(plan, ctx):
                 ctx.probe(f"invalid_call_accepted:{kind}")
                 return
             ctx.fault("invalid:" + kind)
+            if isinstance(res, LeftBehind):
+                ctx.violation("C18/failed-op-changes-nothing", f"C18/changed-after-raise/invalid:{kind}/collection-members",
+                              str(res))
             if grown:
                 ctx.fault("fault_after_growth")
             raised_any = True
